@@ -268,14 +268,31 @@ fn run_one(ctx: &mut Ctx, web: Web, start_url: &str, max: u32, follow: bool, lab
     let exp = simulate(&web, &start, max, follow);
     let web = Arc::new(web);
     let world = serve(web.clone());
-    let res = attohttpc::get(start_url).max_redirections(max).follow_redirects(follow).send();
+    let mut prepared = attohttpc::get(start_url).max_redirections(max).follow_redirects(follow).prepare();
+    let res = prepared.send();
     let obs = observe(&world, res);
+    // the same prepared request sent again starts from the same URL with a fresh budget
+    let first_dials = world.dial_count();
+    let res2 = prepared.send();
+    let obs2 = {
+        let mut o = observe(&world, res2);
+        o.hops.drain(..first_dials.min(o.hops.len()));
+        o
+    };
     let descr = || {
         let mut t: Vec<String> = web.table.iter().map(|(k, n)| format!("{}://{}:{}{} -> {} {:?}", k.0, k.1, k.2, k.3, n.status, n.locations.iter().map(|l| show(l)).collect::<Vec<_>>())).collect();
         t.sort();
         format!("[{label}] start={start_url} max={max} follow={follow} table={t:?}")
     };
     judge_walk(ctx, &exp, &obs, &descr);
+    if !matches!(exp.outcome, Outcome::Gray(_)) {
+        let before = ctx.violations.len();
+        judge_walk(ctx, &exp, &obs2, &|| format!("SECOND send() of the same prepared request; {}", descr()));
+        for v in ctx.violations[before..].iter_mut() {
+            v.signature = format!("resend:{}", v.signature);
+        }
+        ctx.count("prepared_requests_sent_twice", 1);
+    }
     // observations
     let redirects_served = exp.hops.len().saturating_sub(1) + matches!(exp.outcome, Outcome::TooMany | Outcome::BadLocation) as usize;
     if follow {
